@@ -23,6 +23,7 @@ CONSTANTS
   MaxSnaps,      \* bound on simultaneously live snapshots
   MaxPins,       \* bound on simultaneously live iterators
   KeepExtra,     \* TRUE: compactions may also keep everything (superset choice)
+  Ops,           \* operations clients issue: subset of {0, 1} (0 = delete, 1 = put)
   \* named deviations ("bug switches"), all FALSE in the design that satisfies the properties
   Bug_RangeMin,          \* key range of several files ends at the MIN of the largest keys
   Bug_NoBoundary,        \* boundary files are not added to compaction inputs
@@ -52,10 +53,11 @@ VARIABLES
   nextFile,  \* last file number handed out
   curWal,    \* WAL being written
   logWal,    \* WAL number recorded in the version set (logs >= this are needed)
-  nextPin
+  nextPin,
+  gcDue      \* a deletion pass is due: it follows every flush and compaction on the same thread
 
 coreVars == <<nk, seq, hist, mem, imm, immOn, immDone, immWal, files, cur, pins, snaps, pending, comp, disk,
-              nextFile, curWal, logWal, nextPin>>
+              nextFile, curWal, logWal, nextPin, gcDue>>
 
 Keys == 1..nk
 Levels == 0..(NL - 1)
@@ -190,7 +192,7 @@ Init ==
   /\ immDone = FALSE /\ immWal = 0
   /\ files = <<>> /\ cur = EmptyVersion(NL) /\ pins = {} /\ snaps = <<>> /\ pending = {}
   /\ comp = NoComp /\ disk = {<<"wal", 1>>} /\ nextFile = 1 /\ curWal = 1 /\ logWal = 1
-  /\ nextPin = 1
+  /\ nextPin = 1 /\ gcDue = FALSE
 
 \* DB::apply_changes for a single operation (room available)
 Write(k, o) ==
@@ -200,7 +202,7 @@ Write(k, o) ==
      /\ mem' = mem \cup {<<k, s, o, v>>}
      /\ seq' = s
   /\ UNCHANGED <<nk, imm, immOn, immDone, immWal, files, cur, pins, snaps, pending, comp, disk, nextFile,
-                 curWal, logWal, nextPin>>
+                 curWal, logWal, nextPin, gcDue>>
 
 \* a two-operation batch: consecutive sequence numbers, published together
 Write2(k1, o1, k2, o2) ==
@@ -211,7 +213,7 @@ Write2(k1, o1, k2, o2) ==
      /\ mem' = mem \cup {<<k1, s1, o1, v1>>, <<k2, s2, o2, v2>>}
      /\ seq' = s2
   /\ UNCHANGED <<nk, imm, immOn, immDone, immWal, files, cur, pins, snaps, pending, comp, disk, nextFile,
-                 curWal, logWal, nextPin>>
+                 curWal, logWal, nextPin, gcDue>>
 
 \* make_room_for_write: new WAL, memtable becomes immutable
 Rotate ==
@@ -219,11 +221,11 @@ Rotate ==
   /\ imm' = mem /\ immOn' = TRUE /\ mem' = {} /\ immDone' = FALSE /\ immWal' = curWal
   /\ nextFile' = nextFile + 1 /\ curWal' = nextFile + 1
   /\ disk' = disk \cup {<<"wal", nextFile + 1>>}
-  /\ UNCHANGED <<nk, seq, hist, files, cur, pins, snaps, pending, comp, logWal, nextPin>>
+  /\ UNCHANGED <<nk, seq, hist, files, cur, pins, snaps, pending, comp, logWal, nextPin, gcDue>>
 
 \* compact_memtable: build the table, log_and_apply (version installed, WAL number advanced)
 FlushInstall(l) ==
-  /\ immOn /\ ~immDone /\ imm # {}
+  /\ immOn /\ ~immDone /\ imm # {} /\ ~gcDue
   /\ FlushLevelOK(l, MinI(imm)[1], MaxI(imm)[1])
   /\ LET no == nextFile + 1  r == MkRec(no, imm) IN
      /\ nextFile' = no
@@ -232,11 +234,12 @@ FlushInstall(l) ==
      /\ cur' = [cur EXCEPT ![l] = IF l = 0 THEN Append(@, r) ELSE InsertByLo(@, r)]
   /\ logWal' = curWal /\ immDone' = TRUE
   /\ UNCHANGED <<nk, seq, hist, mem, imm, immOn, immWal, pins, snaps, pending, comp, curWal,
-                 nextPin>>
+                 nextPin, gcDue>>
 
 ImmDrop ==
   /\ immOn
   /\ immDone \/ Bug_ImmDropEarly
+  /\ ~gcDue /\ gcDue' = TRUE
   /\ immOn' = FALSE /\ imm' = {} /\ immDone' = FALSE
   /\ UNCHANGED <<nk, seq, hist, mem, immWal, files, cur, pins, snaps, pending, comp, disk, nextFile,
                  curWal, logWal, nextPin>>
@@ -250,7 +253,7 @@ Deletable ==
                \/ (d[1] = "wal" /\ d[2] < logWal)}
 
 RemoveObsolete ==
-  /\ Deletable # {}
+  /\ gcDue /\ gcDue' = FALSE
   /\ disk' = disk \ Deletable
   /\ UNCHANGED <<nk, seq, hist, mem, imm, immOn, immDone, immWal, files, cur, pins, snaps, pending, comp,
                  nextFile, curWal, logWal, nextPin>>
@@ -258,7 +261,7 @@ RemoveObsolete ==
 \* pick_compaction / compact_range: inputs fixed under the mutex, input version pinned,
 \* smallest snapshot captured
 CompactPick(l, f) ==
-  /\ ~comp.on /\ l < NL - 1 /\ f \in LvlSet(cur, l)
+  /\ ~gcDue /\ ~comp.on /\ l < NL - 1 /\ f \in LvlSet(cur, l)
   /\ LET S0 == Inputs0(l, f)
          S1 == Inputs1(l, S0)
          E == UNION {EntsOf(files, g.no) : g \in S0 \cup S1}
@@ -267,12 +270,12 @@ CompactPick(l, f) ==
        comp' = [on |-> TRUE, lvl |-> l, in0 |-> {g.no : g \in S0}, in1 |-> {g.no : g \in S1},
                 ver |-> cur, todo |-> K, outs |-> {}]
   /\ UNCHANGED <<nk, seq, hist, mem, imm, immOn, immDone, immWal, files, cur, pins, snaps, pending, disk,
-                 nextFile, curWal, logWal, nextPin>>
+                 nextFile, curWal, logWal, nextPin, gcDue>>
 
 \* one output file: any non-empty run of at most FileCap entries (cuts may fall between two
 \* versions of one user key)
 CompactEmit(n) ==
-  /\ comp.on /\ comp.todo # {} /\ n \in 1..FileCap
+  /\ ~gcDue /\ comp.on /\ comp.todo # {} /\ n \in 1..FileCap
   /\ n <= Cardinality(comp.todo)
   /\ LET E == TakeFirst(comp.todo, n)  no == nextFile + 1 IN
      /\ nextFile' = no
@@ -280,7 +283,7 @@ CompactEmit(n) ==
      /\ disk' = disk \cup {<<"table", no>>}
      /\ pending' = pending \cup {no}
      /\ comp' = [comp EXCEPT !.todo = @ \ E, !.outs = @ \cup {no}]
-  /\ UNCHANGED <<nk, seq, hist, mem, imm, immOn, immDone, immWal, cur, pins, snaps, curWal, logWal, nextPin>>
+  /\ UNCHANGED <<nk, seq, hist, mem, imm, immOn, immDone, immWal, cur, pins, snaps, curWal, logWal, nextPin, gcDue>>
 
 \* install_compaction_results + cleanup + release_inputs
 CompactInstall ==
@@ -291,29 +294,29 @@ CompactInstall ==
      cur' = [cur EXCEPT ![l] = RemoveNos(@, gone),
                         ![l + 1] = InsertAll(RemoveNos(@, gone), R)]
   /\ pending' = pending \ comp.outs
-  /\ comp' = NoComp
+  /\ comp' = NoComp /\ ~gcDue /\ gcDue' = TRUE
   /\ UNCHANGED <<nk, seq, hist, mem, imm, immOn, immDone, immWal, files, pins, snaps, disk, nextFile, curWal,
                  logWal, nextPin>>
 
 \* trivial move: a single file with no parent overlap goes one level down
 TrivialMove(l, f) ==
-  /\ ~comp.on /\ l < NL - 1 /\ f \in LvlSet(cur, l)
+  /\ ~gcDue /\ ~comp.on /\ l < NL - 1 /\ f \in LvlSet(cur, l)
   /\ Inputs0(l, f) = {f} /\ Inputs1(l, {f}) = {}
   /\ cur' = [cur EXCEPT ![l] = RemoveNos(@, {f.no}), ![l + 1] = InsertByLo(@, f)]
   /\ UNCHANGED <<nk, seq, hist, mem, imm, immOn, immDone, immWal, files, pins, snaps, pending, comp, disk,
-                 nextFile, curWal, logWal, nextPin>>
+                 nextFile, curWal, logWal, nextPin, gcDue>>
 
 TakeSnap ==
   /\ Len(snaps) < MaxSnaps
   /\ snaps' = Append(snaps, seq)
   /\ UNCHANGED <<nk, seq, hist, mem, imm, immOn, immDone, immWal, files, cur, pins, pending, comp, disk,
-                 nextFile, curWal, logWal, nextPin>>
+                 nextFile, curWal, logWal, nextPin, gcDue>>
 
 RelSnap(i) ==
   /\ i \in 1..Len(snaps)
   /\ snaps' = [j \in 1..(Len(snaps) - 1) |-> IF j < i THEN snaps[j] ELSE snaps[j + 1]]
   /\ UNCHANGED <<nk, seq, hist, mem, imm, immOn, immDone, immWal, files, cur, pins, pending, comp, disk,
-                 nextFile, curWal, logWal, nextPin>>
+                 nextFile, curWal, logWal, nextPin, gcDue>>
 
 \* new_iterator: pins memtable, immutable memtable, version and sequence
 PinNew ==
@@ -322,13 +325,13 @@ PinNew ==
                          ver |-> cur, seq |-> seq]}
   /\ nextPin' = nextPin + 1
   /\ UNCHANGED <<nk, seq, hist, mem, imm, immOn, immDone, immWal, files, cur, snaps, pending, comp, disk,
-                 nextFile, curWal, logWal>>
+                 nextFile, curWal, logWal, gcDue>>
 
 PinDrop(p) ==
   /\ p \in pins
   /\ pins' = pins \ {p}
   /\ UNCHANGED <<nk, seq, hist, mem, imm, immOn, immDone, immWal, files, cur, snaps, pending, comp, disk,
-                 nextFile, curWal, logWal, nextPin>>
+                 nextFile, curWal, logWal, nextPin, gcDue>>
 
 BgStep ==
   \/ \E l \in 0..2 : FlushInstall(l)
@@ -339,7 +342,7 @@ BgStep ==
   \/ CompactInstall
 
 Next ==
-  \/ \E k \in Keys, o \in {0, 1} : Write(k, o)
+  \/ \E k \in Keys, o \in Ops : Write(k, o)
   \/ Rotate
   \/ BgStep
   \/ TakeSnap \/ \E i \in 1..Len(snaps) : RelSnap(i)
